@@ -1,5 +1,5 @@
 SPECIFICATION Spec
-CONSTANTS MaxLen = 6 NumGens = 2 Defect = "none"
-INVARIANTS InvCache InvGet InvLast InvGen InvSetUp InvKey
+CONSTANTS MaxLen = 6 NumGens = 2 Defect = "none" Impls = {"RayTracing", "Interpolation"}
+INVARIANTS InvCache InvGet InvLast InvGen InvSetUp InvRefused InvKey
 VIEW View
 CHECK_DEADLOCK FALSE
